@@ -38,6 +38,8 @@ pub fn jn(n: usize) -> Value {
 
 thread_local! {
     static LAST_PANIC: RefCell<Option<(String, String)>> = RefCell::new(None);
+    /// nesting depth of catch(): a panic outside any catch() is the harness's own and is reported on stderr
+    static CATCH_DEPTH: std::cell::Cell<u32> = std::cell::Cell::new(0);
 }
 
 pub fn install_panic_hook() {
@@ -50,6 +52,9 @@ pub fn install_panic_hook() {
             "<non-string panic>".to_string()
         };
         let loc = info.location().map(|l| l.file().to_string()).unwrap_or_default();
+        if CATCH_DEPTH.with(|d| d.get()) == 0 {
+            eprintln!("vh: panic outside the code under observation: {} ({}:{})", msg, loc, info.location().map(|l| l.line()).unwrap_or(0));
+        }
         LAST_PANIC.with(|p| *p.borrow_mut() = Some((msg, loc)));
     }));
 }
@@ -57,7 +62,10 @@ pub fn install_panic_hook() {
 /// Runs `f`, turning a panic of the code under test into data.
 pub fn catch<T>(f: impl FnOnce() -> T) -> Result<T, (String, String)> {
     LAST_PANIC.with(|p| *p.borrow_mut() = None);
-    match panic::catch_unwind(AssertUnwindSafe(f)) {
+    CATCH_DEPTH.with(|d| d.set(d.get() + 1));
+    let r = panic::catch_unwind(AssertUnwindSafe(f));
+    CATCH_DEPTH.with(|d| d.set(d.get() - 1));
+    match r {
         Ok(v) => Ok(v),
         Err(_) => Err(LAST_PANIC.with(|p| p.borrow_mut().take()).unwrap_or(("<unknown>".into(), "".into()))),
     }
